@@ -39,6 +39,18 @@ pub fn run(op: &str, args: &[&str]) -> Option<String> {
                 Err(_) => "ERR".into(),
             })
         }
+        ("blockfull", [h]) => {
+            let b = unhex(h)?;
+            Some(match deserialize::<monero::Block>(&b) {
+                Ok(blk) => format!(
+                    "OK {} {} {}",
+                    show_hex(&blk.tx_root().0),
+                    show_hex(&blk.serialize_hashable()),
+                    show_hex(&blk.id().0)
+                ),
+                Err(_) => "ERR".into(),
+            })
+        }
         _ => None,
     }
 }
